@@ -3,10 +3,7 @@
 
 package nbhttp
 
-import (
-	"net/http"
-	"sort"
-)
+import "sort"
 
 // VerifCacheLen returns the number of unparsed bytes the parser retains.
 func (p *Parser) VerifCacheLen() int {
@@ -89,42 +86,3 @@ func VerifHeaderNames() [3]string {
 
 // VerifMaxInt is the parser's MaxInt constant.
 func VerifMaxInt() int64 { return MaxInt }
-
-// ---- framing-metadata functions (sampled differential, C08)
-
-// VerifParseChunkSize runs parseAndValidateChunkSize.
-func VerifParseChunkSize(s string) (int, error) { return parseAndValidateChunkSize(s) }
-
-// VerifFraming runs parseTransferEncoding, parseContentLength and parseTrailer (the three calls made at
-// the blank line, in that order) on a parser whose recorded framing headers are the given values.
-// It returns (chunked, contentLength, sorted declared trailer keys, index of the failing step 0..3, error).
-func VerifFraming(te, cl, tr []string) (bool, int, []string, int, error) {
-	p := &Parser{}
-	if te != nil || cl != nil || tr != nil {
-		p.header = http.Header{}
-	}
-	if te != nil {
-		p.header[transferEncodingHeader] = te
-	}
-	if cl != nil {
-		p.header[contentLengthHeader] = cl
-	}
-	if tr != nil {
-		p.header[trailerHeader] = tr
-	}
-	if err := p.parseTransferEncoding(); err != nil {
-		return false, 0, nil, 1, err
-	}
-	if err := p.parseContentLength(); err != nil {
-		return p.chunked, 0, nil, 2, err
-	}
-	if err := p.parseTrailer(); err != nil {
-		return p.chunked, p.contentLength, nil, 3, err
-	}
-	var ks []string
-	for k := range p.trailer {
-		ks = append(ks, k)
-	}
-	sort.Strings(ks)
-	return p.chunked, p.contentLength, ks, 0, nil
-}
